@@ -21,10 +21,17 @@ _SM = ("Model checking of an explicit state machine (spec/abs/RaggedHeap.tla): l
        "alphabet is replayed into the real code, and deeper random programs recorded from the real code are validated step by step by TLC (trace validation), "
        "observing every live handle after every step. Right level because the property quantifies over programs / histories and over every position of an "
        "inserted read - an interleaving quantifier that a state machine with Read as a free action expresses directly.")
+_HM = ("Model checking of an explicit state machine (spec/abs/HashTable.tla): level A is a dictionary over a fixed key set (keys opaque), level M the "
+       "bucket layout, in-bucket offsets, the lazy scalar-or-array value state and the four branches of Counter.count; TLC checks that M denotes A after every "
+       "step of every history of the bounded alphabet (key sets with negative keys, all-collide and empty-bucket moduli, three initial-value kinds), that the "
+       "key set never changes, and the split / order lemmas of counting. Every reachable state is one history replayed into the real classes; seeded histories "
+       "recorded from the real classes (all key dtypes, keys up to 2**62, long batches) are validated step by step by TLC. Right level because the property "
+       "quantifies over histories and key sets / moduli: a state machine explored exhaustively on small universes plus trace validation on large ones.")
 CLAIMED = {
     "C01": ("5 C01", _FN), "C02": ("5 C02", _FN), "C03": ("5 C03", _FN), "C04": ("5 C04", _FN), "C05": ("5 C05", _FN),
     "C07": ("5 C07", _FN), "C08": ("5 C08", _FN), "C09": ("5 C09", _FN),
     "C06": ("5 C06, 3.3", _SM), "C10": ("5 C10, 3.3", _SM),
+    "C11": ("5 C11, 3.3", _HM), "C12": ("5 C12, 3.3", _HM),
     "C19": ("5 C19", "Model checking + conformance under both configurations: the specification has no index-width variable, so every TLC-generated case of the "
             "C01-C09 instances and every program of the heap machine has ONE expected outcome; each is executed under ViewBase.set_dtype(int64) and (int32) in "
             "the same process and the two projected outcomes must agree in everything the source property claims; seeded driver events are run under both "
